@@ -87,7 +87,11 @@ WhiskL(t, a) == Diag(t \o a.dom, t \o a.cod, a.boxes,
 Tensor(a, b) == Then(WhiskR(a, b.dom), WhiskL(a.cod, b))
 
 \* dagger of a box: swap dom/cod and flip the dagger flag (field dg in 0..1)
-DagBox(b) == [b EXCEPT !.dom = b.cod, !.cod = b.dom, !.dg = 1 - b.dg]
+\* (structural boxes are closed under dagger: the dagger of a swap is the opposite swap,
+\*  of a cup the cap on the same pair of atoms and vice versa; their flag stays 0)
+DagBox(b) == IF b.kind = 0 THEN [b EXCEPT !.dom = b.cod, !.cod = b.dom, !.dg = 1 - b.dg]
+             ELSE [b EXCEPT !.dom = b.cod, !.cod = b.dom,
+                            !.kind = IF b.kind = 2 THEN 3 ELSE IF b.kind = 3 THEN 2 ELSE b.kind]
 Rev(s) == [k \in 1..Len(s) |-> s[Len(s) + 1 - k]]
 Dagger(d) == Diag(d.cod, d.dom, Rev([k \in 1..Len(d.boxes) |-> DagBox(d.boxes[k])]), Rev(d.offs))
 
